@@ -476,6 +476,7 @@ def rundmc(
 
     # Now we should be sure that there is a file
     # to continue from, if given.
+    previous = None
     if continue_from is not None:
         import pyqmc.method.hdftools as hdftools
 
@@ -509,6 +510,13 @@ def rundmc(
         # next block uses the ones computed after it, as in the loop below.
         e_est = estimate_energy(continue_from, [], ekey)
         e_trial = e_est - feedback * np.log(np.mean(weights)).real
+        if continue_from != hdf_file:
+            # the blocks recorded in continue_from stay part of the energy estimate
+            with h5py.File(continue_from, "r") as hdf:
+                previous = (
+                    hdf[ekey[0] + ekey[1]][:nrecorded],
+                    hdf["weight"][:nrecorded],
+                )
     else:
         df, configs = mc.vmc(
             wf,
@@ -580,7 +588,7 @@ def rundmc(
         df.append(df_)
         dmc_file(hdf_file, df_, {}, configs, weights)
 
-        e_est = estimate_energy(hdf_file, df, ekey)
+        e_est = estimate_energy(hdf_file, df, ekey, previous)
         e_trial = e_est - feedback * np.log(np.mean(weights)).real
 
         if verbose:
@@ -603,7 +611,7 @@ def rundmc(
     return df_ret, configs, weights
 
 
-def estimate_energy(hdf_file, df, ekey):
+def estimate_energy(hdf_file, df, ekey, previous=None):
     if hdf_file is not None:
         import pyqmc.method.hdftools as hdftools
 
@@ -614,5 +622,8 @@ def estimate_energy(hdf_file, df, ekey):
     else:
         en = np.asarray([d[ekey[0] + ekey[1]] for d in df])
         wt = np.asarray([d["weight"] for d in df])
+    if previous is not None:
+        en = np.concatenate((previous[0], en))
+        wt = np.concatenate((previous[1], wt))
     warmup = int(len(en) / 4)
     return np.average(en[warmup:], weights=wt[warmup:]).real
